@@ -172,15 +172,18 @@ func VerifH_C08_compose() {
 	k := 1 + vrt.Choice(max)
 	p := NewFilterPipeline()
 	for i := 0; i < k; i++ {
-		switch vrt.Choice(3) {
+		switch vrt.Choice(4) {
 		case 0:
 			p.AddFilter(NewShuffleFilter(uint32(1 + vrt.Choice(2))))
 		case 1:
 			p.AddFilter(NewFletcher32Filter())
+		case 2:
+			p.AddFilter(NewGZIPFilter(6))
 		default:
 			p.AddFilter(NewLZFFilter())
 		}
 	}
+	vrt.LoopBound(70000)
 	data := vrt.Bytes(4)
 	for i := range data {
 		data[i] &= 1
@@ -283,4 +286,29 @@ func VerifH_C08_fletcher32_long() {
 	_, err = f.Remove(bad)
 	vrt.Assert(err != nil, "fletcher-writer-side-detects-single-byte-corruption")
 	vrt.Covered("fletcher-done")
+}
+
+// C08 deflate: the writer's deflate filter (id 1) and the reader's decoder for id 1 must agree on the container
+// format. Payload: n ≤ 2 symbolic bytes over a four-letter alphabet; level forked over {1, 6, 9}. The standard library's compressor runs in the
+// engine as ordinary code (package tables initialised concretely).
+func VerifH_C08_deflate_container() {
+	vrt.LoopBound(70000)
+	level := []int{1, 6, 9}[vrt.Choice(3)]
+	n := vrt.Choice(3)
+	data := vrt.Bytes(n)
+	for i := range data {
+		data[i] = 'a' + data[i]&3 // four-letter alphabet: the compressor's table indices stay enumerable
+	}
+	f := NewGZIPFilter(level)
+	enc, err := f.Apply(data)
+	vrt.AssertNoErr(err, "deflate-apply-ok")
+	dec, err := f.Remove(enc)
+	vrt.AssertNoErr(err, "deflate-remove-ok")
+	vrt.Assert(verifEq(dec, data), "deflate-roundtrip")
+	p := NewFilterPipeline()
+	p.AddFilter(f)
+	back, err := verifReaderPipeline(p).ApplyFilters(enc)
+	vrt.AssertNoErr(err, "reader-decodes-deflate")
+	vrt.Assert(verifEq(back, data), "reader-deflate-roundtrip")
+	vrt.Covered("deflate-done")
 }
